@@ -15,8 +15,8 @@
 (*               e |-> << <<to, request index, ok>>, ... >>]                *)
 (* ok: 1 approved, 0 refused, -1 the real entry point failed (error/panic). *)
 (* IOEnv: VEL_NODES, VEL_CASES, VEL_REPORT, VEL_KEEP, VEL_PERSIST_FEE       *)
-(* (the behaviour switches, what the code does at HEAD), VEL_MON ("pay" or  *)
-(* "fee": one monitor at a time), VEL_LEVELS (e.g. "struct,approver").      *)
+(* (the behaviour switches, what the code does at HEAD), VEL_MON ("pay",    *)
+(* "fee" or "both"), VEL_LEVELS (e.g. "struct,approver").      *)
 (***************************************************************************)
 EXTENDS Velocity, Json, IOUtils, SequencesExt
 
@@ -57,7 +57,8 @@ View == <<node, g>>
 
 \* the property monitor (on observations of the real implementation only)
 C12 == LET P == PS[Nodes[node + 1].c] IN
-       IF Mon = "fee" THEN Inv_C12_fee(g, P) ELSE Inv_C12_pay(g, P)
+       /\ (Mon # "fee" => Inv_C12_pay(g, P))
+       /\ (Mon # "pay" => Inv_C12_fee(g, P))
 
 ---------------------------------------------------------------------------
 \* conformance of every implementation edge with the specification
@@ -92,10 +93,10 @@ Report ==
     approved    |-> NOk,
     ndivergent  |-> Cardinality(Divergent),
     divergences |-> LET q == SetToSeq(Divergent) IN
-                    [k \in 1..Min(Len(q), 40) |-> Describe(q[k])],
+                    [k \in 1..Lesser(Len(q), 40) |-> Describe(q[k])],
     nfailed     |-> Cardinality(Failed),
     failed      |-> LET q == SetToSeq(Failed) IN
-                    [k \in 1..Min(Len(q), 40) |-> Describe(q[k])],
+                    [k \in 1..Lesser(Len(q), 40) |-> Describe(q[k])],
     init_bad    |-> SetToSeq({Cases[Nodes[i].c].id : i \in InitBad}) ]
 
 ASSUME JsonSerialize(IOEnv.VEL_REPORT, Report)
